@@ -545,15 +545,17 @@ Print Assumptions C18_new_address_reload_fault_refuted.
    loads of the keystore outside a NewAddress) on the keystore state [s] (stored child number, rows,
    the in-memory table entry with its mirror); the result: the final state and the addresses handed
    out.  [from_store = true] is the code as it is (nextAddresses reads the child number from the store
-   inside the transaction), [false] the variant that takes it from the mirror. *)
+   inside the transaction), [false] the variant that takes it from the mirror.  [mem_undo = false] is the
+   code as it is (a failed NewAddress reloads the keystore from the store), [true] the proposed repair
+   fix-c18f (the addresses are taken out of the in-memory table again; no reload, nothing that can fail). *)
 Require MW.Ledger.FaultReload MW.Ledger.FaultReloadProofs.
 
 (* M1 (generalises T4) no skipped or duplicated address index, the code as it is: for EVERY sequence of
    events — any faults, any outcomes of the reloads including partial ones and lost keystores, any
    loads in between — the addresses handed out are children n, n+1, n+2, ... in order (n = the stored
    child number before), and the stored child number has advanced by exactly their number *)
-Theorem C18_address_indices_partial_reload : forall derive evs s,
-  let '(s', outs) := FaultReload.run derive true evs s in
+Theorem C18_address_indices_partial_reload : forall derive mem_undo evs s,
+  let '(s', outs) := FaultReload.run derive true mem_undo evs s in
   outs = map derive (seq (FaultReload.s_next s) (length outs)) /\
   FaultReload.s_next s' = (FaultReload.s_next s + length outs)%nat.
 Proof. exact FaultReloadProofs.run_indices. Qed.
@@ -563,23 +565,23 @@ Print Assumptions C18_address_indices_partial_reload.
       keystore altogether (what happens then: R2 above) *)
 Theorem C18_address_count_partial_reload : forall derive evs s,
   FaultReload.s_cache s <> None -> FaultReload.no_load_fails evs ->
-  length (snd (FaultReload.run derive true evs s)) = FaultReload.clean_calls evs /\
-  FaultReload.s_cache (fst (FaultReload.run derive true evs s)) <> None.
+  length (snd (FaultReload.run derive true false evs s)) = FaultReload.clean_calls evs /\
+  FaultReload.s_cache (fst (FaultReload.run derive true false evs s)) <> None.
 Proof. exact FaultReloadProofs.run_count. Qed.
 Print Assumptions C18_address_count_partial_reload.
 
 (*    ... and the store's rows stay exactly the children 0 .. n-1, each with its own address *)
-Theorem C18_address_rows_partial_reload : forall derive evs s,
-  FaultReload.rows_ok derive s -> FaultReload.rows_ok derive (fst (FaultReload.run derive true evs s)).
+Theorem C18_address_rows_partial_reload : forall derive mem_undo evs s,
+  FaultReload.rows_ok derive s -> FaultReload.rows_ok derive (fst (FaultReload.run derive true mem_undo evs s)).
 Proof. exact FaultReloadProofs.run_rows_ok. Qed.
 Print Assumptions C18_address_rows_partial_reload.
 
 (* M2 a stale mirror is never observable in the code as it is: two states that differ in the mirror only
    hand out the same addresses under the same events and end in the same store *)
-Theorem C18_stale_mirror_unobservable : forall derive evs s1 s2,
+Theorem C18_stale_mirror_unobservable : forall derive mem_undo evs s1 s2,
   FaultReload.same_but_mirror s1 s2 ->
-  snd (FaultReload.run derive true evs s1) = snd (FaultReload.run derive true evs s2) /\
-  FaultReload.same_but_mirror (fst (FaultReload.run derive true evs s1)) (fst (FaultReload.run derive true evs s2)).
+  snd (FaultReload.run derive true mem_undo evs s1) = snd (FaultReload.run derive true mem_undo evs s2) /\
+  FaultReload.same_but_mirror (fst (FaultReload.run derive true mem_undo evs s1)) (fst (FaultReload.run derive true mem_undo evs s2)).
 Proof. exact FaultReloadProofs.run_mirror_blind. Qed.
 Print Assumptions C18_stale_mirror_unobservable.
 
@@ -588,7 +590,7 @@ Print Assumptions C18_stale_mirror_unobservable.
 Theorem C18_partial_reload_refines_attempts : forall (derive : N -> nat -> N) repaired fs ls k w s,
   Forall (fun l => l <> FaultReload.LoadFails) ls -> FaultReload.s_cache s <> None ->
   FaultReload.s_next s = next_index (k_store k) w ->
-  snd (FaultReload.run (derive w) true (FaultReloadProofs.events_of fs ls) s) = snd (attempts derive repaired fs k w).
+  snd (FaultReload.run (derive w) true false (FaultReloadProofs.events_of fs ls) s) = snd (attempts derive repaired fs k w).
 Proof. exact FaultReloadProofs.run_refines_attempts. Qed.
 Print Assumptions C18_partial_reload_refines_attempts.
 
@@ -601,23 +603,42 @@ Print Assumptions C18_partial_reload_refines_attempts.
    child 0 and sets the stored number back to 1 (the code as it is: child 3, store 4) *)
 Theorem C18_new_address_mirror_refuted :
   (FaultReload.no_load_fails FaultReloadProofs.evs_a /\ FaultReload.rows_ok FaultReloadProofs.derive0 FaultReloadProofs.fresh /\
-   FaultReload.run FaultReloadProofs.derive0 false FaultReloadProofs.evs_a FaultReloadProofs.fresh =
+   FaultReload.run FaultReloadProofs.derive0 false false FaultReloadProofs.evs_a FaultReloadProofs.fresh =
      ({| FaultReload.s_next := 2; FaultReload.s_rows := [(1%nat, 101%N); (0%nat, 100%N)];
          FaultReload.s_cache := Some {| FaultReload.c_addrs := [101; 100; 101; 100]%N; FaultReload.c_mirror := 2 |} |},
       [100; 101; 100; 101]%N) /\
-   snd (FaultReload.run FaultReloadProofs.derive0 true FaultReloadProofs.evs_a FaultReloadProofs.fresh) = [100; 101; 102; 103]%N /\
-   FaultReload.s_next (fst (FaultReload.run FaultReloadProofs.derive0 true FaultReloadProofs.evs_a FaultReloadProofs.fresh)) = 4%nat) /\
+   snd (FaultReload.run FaultReloadProofs.derive0 true false FaultReloadProofs.evs_a FaultReloadProofs.fresh) = [100; 101; 102; 103]%N /\
+   FaultReload.s_next (fst (FaultReload.run FaultReloadProofs.derive0 true false FaultReloadProofs.evs_a FaultReloadProofs.fresh)) = 4%nat) /\
   (FaultReload.no_load_fails FaultReloadProofs.evs_b /\ FaultReload.rows_ok FaultReloadProofs.derive0 FaultReloadProofs.three /\
-   snd (FaultReload.run FaultReloadProofs.derive0 false FaultReloadProofs.evs_b FaultReloadProofs.three) = [100]%N /\
-   FaultReload.s_next (fst (FaultReload.run FaultReloadProofs.derive0 false FaultReloadProofs.evs_b FaultReloadProofs.three)) = 1%nat /\
-   snd (FaultReload.run FaultReloadProofs.derive0 true FaultReloadProofs.evs_b FaultReloadProofs.three) = [103]%N /\
-   FaultReload.s_next (fst (FaultReload.run FaultReloadProofs.derive0 true FaultReloadProofs.evs_b FaultReloadProofs.three)) = 4%nat).
+   snd (FaultReload.run FaultReloadProofs.derive0 false false FaultReloadProofs.evs_b FaultReloadProofs.three) = [100]%N /\
+   FaultReload.s_next (fst (FaultReload.run FaultReloadProofs.derive0 false false FaultReloadProofs.evs_b FaultReloadProofs.three)) = 1%nat /\
+   snd (FaultReload.run FaultReloadProofs.derive0 true false FaultReloadProofs.evs_b FaultReloadProofs.three) = [103]%N /\
+   FaultReload.s_next (fst (FaultReload.run FaultReloadProofs.derive0 true false FaultReloadProofs.evs_b FaultReloadProofs.three)) = 4%nat).
 Proof. exact FaultReloadProofs.new_address_mirror_refuted. Qed.
 Print Assumptions C18_new_address_mirror_refuted.
 
+(* M5 where the reload fails altogether (the code as it is; = R2 above in this model): one address issued,
+   the second call fails and its reload fails too (BeginReadTx: dropped silently; another read: the process
+   exits at the FATAL log): the keystore is out of the table and the third call fails although storage
+   works.  With the in-memory repair it succeeds, and in general no fault of a NewAddress can lose the
+   keystore: every call not struck by a fault hands out an address *)
+Theorem C18_new_address_lost_keystore_refuted :
+  FaultReload.run FaultReloadProofs.derive0 true false FaultReloadProofs.evs_c FaultReloadProofs.fresh =
+    ({| FaultReload.s_next := 1; FaultReload.s_rows := [(0%nat, 100%N)]; FaultReload.s_cache := None |}, [100%N]) /\
+  snd (FaultReload.run FaultReloadProofs.derive0 true true FaultReloadProofs.evs_c FaultReloadProofs.fresh) = [100; 101]%N.
+Proof. exact FaultReloadProofs.new_address_lost_keystore_refuted. Qed.
+Print Assumptions C18_new_address_lost_keystore_refuted.
+
+Theorem C18_address_count_mem_undo : forall derive evs s,
+  FaultReload.s_cache s <> None -> FaultReload.no_lost_load evs ->
+  length (snd (FaultReload.run derive true true evs s)) = FaultReload.clean_calls evs /\
+  FaultReload.s_cache (fst (FaultReload.run derive true true evs s)) <> None.
+Proof. exact FaultReloadProofs.run_count_mem_undo. Qed.
+Print Assumptions C18_address_count_mem_undo.
+
 (* non-vacuity of M1: faults of every kind, a lost keystore and a restart in between; five calls succeed *)
 Example C18_partial_reload_example :
-  FaultReload.run FaultReloadProofs.derive0 true
+  FaultReload.run FaultReloadProofs.derive0 true false
     [FaultReload.ENew FaultReload.NNone; FaultReload.ENew (FaultReload.NFail FaultReload.LoadPartial); FaultReload.ENew FaultReload.NNone;
      FaultReload.ENew (FaultReload.NFail FaultReload.LoadFails); FaultReload.ENew FaultReload.NNone; FaultReload.ELoad FaultReload.LoadPartial;
      FaultReload.ENew FaultReload.NNone; FaultReload.ENew (FaultReload.NFail FaultReload.LoadOk); FaultReload.ENew FaultReload.NNone;
